@@ -80,6 +80,71 @@ def validateRequestR (g : List GuardAtom) (reg : List (Str × DecK)) (rb : ReqBo
     (b : BodyIn) (exro ds : Bool) : Outcome :=
   validateRequestBodyD reg rb ct (dataRead g r b) exro ds
 
+/-! ### The guard of default injection in `visitJSONObject` (table `C06DefaultGuard`)
+
+      reqRO := settings.asreq && propSchema.Value.ReadOnly && !settings.readOnlyValidationDisabled
+      repWO := settings.asrep && propSchema.Value.WriteOnly && !settings.writeOnlyValidationDisabled
+      if _, present := value[propName]; !present && settings.defaultsSet != nil {
+          if dflt := propSchema.Value.Default; dflt != nil && !reqRO && !repWO { value[propName] = deepcopy.Copy(dflt) … } }
+
+The rows are data: two definitions of flags and the conjunction under which the write happens; `evalDRows` gives
+them their meaning in an environment of the nine facts the atoms can look at. -/
+
+inductive DVar | reqRO | repWO
+  deriving DecidableEq, Repr
+
+inductive DAtom
+  | asreq | asrep | readOnly | writeOnly | notRODisabled | notWODisabled | dfltNotNil | absent | defaultsSet
+  | notVar (v : DVar)
+  | unreadable
+  deriving DecidableEq, Repr
+
+inductive DRow
+  | define (v : DVar) (conj : List DAtom)
+  | injectIf (conj : List DAtom)
+  | unrecognised
+  deriving DecidableEq, Repr
+
+/-- what the atoms look at: the settings of the visit, the property's flags, whether it has a default, whether the
+value lacks the property, whether `DefaultsSet` is installed -/
+structure InjEnv where
+  asreq : Bool
+  asrep : Bool
+  ro : Bool
+  wo : Bool
+  roDisabled : Bool
+  woDisabled : Bool
+  hasDflt : Bool
+  absent : Bool
+  defaultsSet : Bool
+  deriving DecidableEq, Repr
+
+def DAtom.eval (vars : DVar → Option Bool) (e : InjEnv) : DAtom → Bool
+  | .asreq => e.asreq | .asrep => e.asrep | .readOnly => e.ro | .writeOnly => e.wo
+  | .notRODisabled => !e.roDisabled | .notWODisabled => !e.woDisabled
+  | .dfltNotNil => e.hasDflt | .absent => e.absent | .defaultsSet => e.defaultsSet
+  | .notVar v => (match vars v with | some b => !b | none => false)
+  | .unreadable => false
+
+/-- does the write happen? (`none`: the rows contain no write, or something unreadable before it) -/
+def evalDRows : List DRow → (DVar → Option Bool) → InjEnv → Option Bool
+  | [], _, _ => none
+  | .define v c :: rest, vars, e =>
+      evalDRows rest (fun w => if w = v then some (c.all (DAtom.eval vars e)) else vars w) e
+  | .injectIf c :: _, vars, e => some (c.all (DAtom.eval vars e))
+  | .unrecognised :: _, _, _ => none
+
+/-- the rows of the pinned source (obligation `defaultGuard_is_source`) -/
+def dRowsSrc : List DRow :=
+  [.define .reqRO [.asreq, .readOnly, .notRODisabled],
+   .define .repWO [.asrep, .writeOnly, .notWODisabled],
+   .injectIf [.absent, .defaultsSet, .dfltNotNil, .notVar .reqRO, .notVar .repWO]]
+
+/-- the environment of a request-side visit (`VisitAsRequest`, `DefaultsSet` installed) at property `p` -/
+def reqEnv (exro woDisabled absent : Bool) (p : RS) : InjEnv :=
+  { asreq := true, asrep := false, ro := p.ro, wo := p.wo, roDisabled := exro, woDisabled := woDisabled,
+    hasDflt := p.dflt.isSome, absent := absent, defaultsSet := true }
+
 /-! ### Specification (property text: "for a request with a body … rejects … a missing required body") -/
 
 /-- the body a request carries: the bytes of its stream; a request whose `Body` is nil or `http.NoBody` carries
